@@ -294,7 +294,7 @@ def main(mod, argv):
         REPLAY_MODE[0] = os.path.relpath(os.path.abspath(args.replay), VERIF)
         os.environ["VERIF_NO_EVIDENCE"] = "1"
     else:
-        if os.path.exists(evid_path):
+        if os.path.exists(evid_path) and not os.environ.get("VERIF_NO_EVIDENCE"):
             os.remove(evid_path)
         # stale replays of this property
         if os.path.isdir(REPLAYS):
